@@ -21,10 +21,15 @@ PROP = "C20"
 HELPERS = '''
 _PROBE = "ab a\\\\'b 'x' cd [a] AB\\nab"
 
+def pv(x, name):
+    # protected accessors are read when the tree has them (a refactoring may rename them: then only the text and the
+    # matching behaviour are compared)
+    return getattr(x, name)() if hasattr(x, name) else None
+
 def _snap(x, behaviour=True):
     # value of an object: text, inferred type, repeatability, verbose class text - and (for the objects taking part in an
     # operation) its observable matching behaviour
-    v = (str(x), x._get_type(), x._is_repeatable(), x._get_verbose_pattern() if hasattr(x, "_get_verbose_pattern") else None)
+    v = (str(x), pv(x, '_get_type'), pv(x, '_is_repeatable'), pv(x, '_get_verbose_pattern'))
     if behaviour:
         v = v + (tuple(x.get_matches_and_pos(_PROBE)), x.is_exact_match("ab"))
     return v
@@ -62,7 +67,7 @@ def _hist(k, o1, a1, o2, a2):
 def _apply(o, p, q):
     try:
         r = _OPS[o](p, q)
-        return ('ok', str(r), r._get_type(), r._is_repeatable())
+        return ('ok', str(r), pv(r, '_get_type'), pv(r, '_is_repeatable'))
     except (TypeError, AttributeError) as e:
         return ('n/a',)
     except Exception as e:
@@ -114,17 +119,17 @@ def step_cases(tier):
         ops = ops[::2]
     for op in ops:
         body = ("p = Pregex(A0)\n"
-                "before = (str(p), p._get_type(), p._is_repeatable())\n"
+                "before = (str(p), pv(p, '_get_type'), pv(p, '_is_repeatable'))\n"
                 "r = %s\n"
-                "after = (str(p), p._get_type(), p._is_repeatable())\n"
+                "after = (str(p), pv(p, '_get_type'), pv(p, '_is_repeatable'))\n"
                 "p = Pregex(A0)\nf = %s\n"
-                "return before == after and str(r) == str(f) and r._get_type() == f._get_type() and r._is_repeatable() == f._is_repeatable()") % (op, op)
+                "return before == after and str(r) == str(f) and pv(r, '_get_type') == pv(f, '_get_type') and pv(r, '_is_repeatable') == pv(f, '_is_repeatable')") % (op, op)
         cs.append(engine.raw_case(body, [("A0", "str")], ["len(A0) == 1"],
                                   "C20 step %s: operand unchanged and result == result on a fresh object, every literal character" % op))
     for op in ["c | 'x'", "c - 'a'", "~c", "c | AnyDigit()", "AnyLetter() - c", "c | c"]:
-        body = ("c = AnyFrom(A0, 'a')\nbefore = (str(c), c._get_verbose_pattern(), c._get_type())\n"
+        body = ("c = AnyFrom(A0, 'a')\nbefore = (str(c), pv(c, '_get_verbose_pattern'), pv(c, '_get_type'))\n"
                 "try:\n    r = str(%s)\nexcept EmptyClassException:\n    r = 'empty'\n"
-                "after = (str(c), c._get_verbose_pattern(), c._get_type())\n"
+                "after = (str(c), pv(c, '_get_verbose_pattern'), pv(c, '_get_type'))\n"
                 "c = AnyFrom(A0, 'a')\ntry:\n    f = str(%s)\nexcept EmptyClassException:\n    f = 'empty'\n"
                 "return before == after and r == f") % (op, op)
         cs.append(engine.raw_case(body, [("A0", "str")], ["len(A0) == 1"], "C20 step %s on AnyFrom(c, 'a'): class operand unchanged, deterministic result, every character c" % op))
@@ -200,9 +205,7 @@ def run(tier):
     import pregex.core.pre as pre, pregex.core.classes as cl
     P = pre.Pregex
     base = cl.Any.__mro__[1]
-    run.functions = common.src_fingerprint([P.__init__, P.compile, P.get_compiled_pattern, P.concat, P.either, P.enclose, P.capture, P.group, P.optional, P.exactly,
-                                            P._concat_conditional_group, P._quantify_conditional_group, P._assert_conditional_group, P.__add__, P.__radd__, P.__mul__,
-                                            base.__init__, base.__or__, base.__sub__, base.__invert__, base._Class__process])
+    run.functions = common.src_fingerprint(common.resolve([(P, "__init__"), (P, "compile"), (P, "get_compiled_pattern"), (P, "concat"), (P, "either"), (P, "enclose"), (P, "capture"), (P, "group"), (P, "optional"), (P, "exactly"), (P, "_concat_conditional_group"), (P, "_quantify_conditional_group"), (P, "_assert_conditional_group"), (P, "__add__"), (P, "__radd__"), (P, "__mul__"), (base, "__init__"), (base, "__or__"), (base, "__sub__"), (base, "__invert__"), (base, "_Class__process")]))
     cases = step_cases(tier)
     outs = engine.run_cases(cases, per_condition_timeout=480 if tier == "quick" else 3000)
     run.add(engine.to_results(cases, outs))
